@@ -45,7 +45,8 @@ def run(ctx, chk):
 
     def uncast(v):
         """index conversions between the token's Index type and usize are value-preserving (the width of Index is checked separately)"""
-        while isinstance(v, tuple) and v and v[0] == "as" and v[2] in ("Index", "usize", "u32", "u64"):
+        from ..symeval import _type_alias
+        while isinstance(v, tuple) and v and v[0] == "as" and (v[2] in ("Index", "usize", "u32", "u64") or _type_alias(v[2]) in ("u32", "u64", "usize")):
             v = v[1]
         if isinstance(v, tuple):
             return tuple(uncast(x) for x in v)
